@@ -256,6 +256,14 @@ def _chain3(lib):
     return qc
 
 
+def _chain3_meta(lib):
+    """The same preparation circuit as it comes out of a user's pipeline: named, with non-empty metadata."""
+    qc = _chain3(lib)
+    qc.name = "user-prep"
+    qc.metadata = {"experiment": "chain", "tags": [1, 2]}
+    return qc
+
+
 def _rs3():
     R = np.array([[1, 0, 0], [0, 1, 0], [0, 0, 1]], dtype=np.int8)
     S = np.array([[0, 1, 0], [1, 0, 1], [0, 1, 0]], dtype=np.int8)
@@ -282,6 +290,11 @@ CALLS = {
     "tomoA": (lambda lib: (_bell(lib), "all"), lambda lib, q, c: lib.tomography.full_state_tomography_circuits(q, c)),
     "measB": (lambda lib: (_chain3(lib), lib.stabilizer.Stabilizer(["XZI", "ZXZ", "IZX"]), "linear"),
               lambda lib, q, s, c: lib.tomography.stabilizer_measurement_circuit(q, s, c)),
+    "tomoB_meta": (lambda lib: (_chain3_meta(lib), "linear"), lambda lib, q, c: lib.tomography.full_state_tomography_circuits(q, c)),
+    "measB_meta": (lambda lib: (_chain3_meta(lib), lib.stabilizer.Stabilizer(["XZI", "ZXZ", "IZX"]), "linear"),
+                   lambda lib, q, s, c: lib.tomography.stabilizer_measurement_circuit(q, s, c)),
+    "compressB_meta": (lambda lib: (_chain3_meta(lib), "linear"),
+                       lambda lib, q, c: lib.stabilizer_circuits.compress_preparation_circuit(q, c)),
     "classify": (lambda lib: (lib.stabilizer.Stabilizer(lib.graph.Graph.linear(3)),),
                  lambda lib, s: [lib.lc_classes.determine_lc_class(s).id(), repr(lib.lc_classes.determine_lc_class(s))]),
     "classgraph": (lambda lib: (3,), lambda lib, i: lib.lc_classes.LCClass3(i).get_graph()),
